@@ -512,12 +512,12 @@ pub fn run(ctx: &mut Ctx) {
     ctx.assume("bytes written but not followed by a completed flush/close need not be delivered; at quiescence flushed <= received <= written, and EOF iff the writer's close completed");
     ctx.assume("yamux pipes are unbounded: with both directions of a bounded pipe full, yamux 0.14 endpoints that each owe a Pong stop reading and block each other (transport-buffering requirement of the external crate, outside this statement)");
     ctx.assume("yamux measures round-trip times with the wall clock (window tuning); no assertion depends on frame or window sizes; yamux uses no randomness");
-    let n_m = ctx.n(2_500, 100_000);
-    let n_y = ctx.n(1_500, 60_000);
+    let n_m = ctx.n(40_000, 1_200_000);
+    let n_y = ctx.n(25_000, 800_000);
     let rule = "1..5 substreams opened by either endpoint after generated delays; per direction a script of 0..6 {write 1..4096 bytes, flush, close} (+ final close 70 %), generated read sizes; pipe with generated chunk scripts / spurious Pending / optional capacity; schedule of 0..300 picks (incl. spurious polls) then fair drain; non-trivial = at least 2 substreams were active at the same time, data flowed and a half was closed";
     ctx.check::<Case>("mplex", &format!("mplex, per endpoint split_send_size in {{1..64,1024,8192}} and max_buffer_len 1..8 (Block); {rule}"), n_m, &|| strategy(false).boxed(), &check);
     ctx.check::<Case>("yamux", &format!("yamux default config; {rule}"), n_y, &|| strategy(true).boxed(), &check);
-    let len = ctx.tier.sel(7usize, 10usize);
+    let len = ctx.tier.sel(9usize, 12usize);
     for (name, y) in [("mplex-schedules", false), ("yamux-schedules", true)] {
         ctx.sweep::<Case, _>(
             name,
